@@ -3,33 +3,30 @@ from __future__ import annotations
 
 import ast
 
-from sa.astx import NotConst, call_attr, call_name, const_eval, lin_expect, lincmp, src, walk_local
 from sa.selftest import Mutant, Silent
 from sa.source import AnalysisError
-from sa.props._lib_f import (InterpError, assign_sites, call_sites, cmp_polarity, enclosing_try_handlers, from_here, handler_names,
-                             interpret, is_self_attr, local_assignments, named_calls, none_guard, param_names, resolver, subst_eval, truth_guard)
+from sa.props._lib_f import InterpError, MDeferred, ModelRaised, NullLogger, World
 
 PROPERTY = "C25"
 S = "web/static.py"
 Q = "twisted.web.static."
-TECHNIQUE = "finite-domain interpretation of the range arithmetic + CFG/exception-escape rules"
+TECHNIQUE = "finite-domain interpretation of File.makeProducer and its producers against an RFC 9110 oracle"
 EXPLANATION = (
-    "Decides: (a) File._rangeToOffsetAndSize and _contentRange are interpreted (whitelisted evaluator, no execution) for every file size 1..9 and "
-    "every first/last/suffix value 0..12 and must equal the RFC 9110 oracle (offset, length) resp. 'bytes a-b/size' - this contains F25b (suffix "
-    "longer than the file, fixed); (b) exception escape: _parseRangeHeader raises only ValueError, every int()/unpack is under a ValueError handler, "
-    "makeProducer catches it and its handler touches the raw header only leniently (F25a, fixed), the reversed / empty range tests are the spec's, and the parser itself is evaluated on ~330 header values (0 in every position, reversed, empty, non-numeric, lists) against an RFC 9110 oracle; _doMultipleRangeRequest is evaluated on multi-range requests with suffix/open-ended parts (request order, Content-Length, no exception); "
-    "(c) response assembly: 416 exactly on the (0,0) outcome, 206 otherwise, Content-Length from the computed size with `is None` defaulting, "
-    "single/multiple dispatch on len()==1, multipart Content-Length accumulates exactly the separators and part sizes that are appended, separator "
-    "and final boundary formats, the value handed to MultipleRangeStaticProducer is a non-empty list of triples on every return; (d) the producers "
-    "seek to the offset, never read past the part (min(.., size - written)), count what they write and finish exactly at size. "
-    "Known findings: multi-range with no satisfiable part and an empty range-set crash with ValueError (500); int() accepts signs/underscores. "
-    "Not decided: bytes on the wire for arbitrary reactor schedules; file size 0 (RFC text is ambiguous there)."
+    "static.File.makeProducer, _parseRangeHeader, _rangeToOffsetAndSize, _contentRange, _doSingleRangeRequest, _doMultipleRangeRequest, _setContentHeaders and the three "
+    "StaticProducer classes are instantiated as model objects whose methods are the repository's own functions (interpreted over the AST; the request and the open file are "
+    "checker models; nothing is imported or run), every response is produced to its end by driving the pull producer, and status, Content-Range, Content-Length, Content-Type "
+    "and the body (multipart bodies parsed with the announced boundary) are compared with an RFC 9110 oracle written independently of the code: (a) the arithmetic "
+    "function on every (size 1..9, first, last/suffix 0..12) case; (b) ~150 Range header values x file sizes through the whole path: absent / malformed -> 200 with the "
+    "whole content (F25a: undecodable bytes), single satisfiable -> 206 with exactly the bytes (F25b: suffix longer than the file), several -> multipart in request order "
+    "with matching Content-Length, none satisfiable -> 416 with `bytes */size`, and never an exception; (c) small and large transport buffer sizes. Known findings keep "
+    "their own rules with semantic construct labels: F25c (several ranges, none satisfiable -> ValueError), F25e (empty range-set -> ValueError), F25d (int() accepts "
+    "sign / underscore / blanks -> malformed header honoured), F25f (a part boundary pushing the chunk past bufferSize -> read() with a negative length -> ValueError). "
+    "Not decided: file size 0, HEAD (the Range header is ignored there), real file-system errors."
 )
-ASSUMPTIONS = ["_rangeToOffsetAndSize is piecewise linear with breakpoints at 0, size-1, size: the finite domain 1..9 x 0..12 covers every region",
-               "getFileSize() is constant during one request"]
+ASSUMPTIONS = ["getFileSize() is constant during one request", "the request's write()/registerProducer() behave like the synchronous model (pull producer driven until finish)"]
 
 
-# ---- RFC 9110 section 14.1.2 oracle, written independently of the code under analysis ----------------
+# ---- RFC 9110 section 14 oracle, written independently of the code under analysis -------------------------------------------------------------
 def oracle(size, first, last):
     """(offset, length) of the satisfiable part, or None when unsatisfiable.  first None = suffix."""
     if first is None:
@@ -43,130 +40,8 @@ def oracle(size, first, last):
     return first, end - first + 1
 
 
-def check(ctx):
-    with ctx.section("arithmetic"):
-        _arithmetic(ctx)
-    with ctx.section("content-range"):
-        _content_range(ctx)
-    with ctx.section("parse"):
-        _parse(ctx)
-    with ctx.section("parse-evaluated"):
-        _parse_evaluated(ctx)
-    with ctx.section("multiple-evaluated"):
-        _multiple_evaluated(ctx)
-    with ctx.section("make-producer"):
-        _make_producer(ctx)
-    with ctx.section("single"):
-        _single(ctx)
-    with ctx.section("multiple"):
-        _multiple(ctx)
-    with ctx.section("producers"):
-        _producers(ctx)
-
-
-def _arithmetic(ctx):
-    f = ctx.func(S, "File._rangeToOffsetAndSize")
-    q = Q + "File._rangeToOffsetAndSize"
-    ps = param_names(f)
-    bad = []
-    n = 0
-    try:
-        for size in range(1, 10):
-            for first in [None] + list(range(0, 13)):
-                for last in [None] + list(range(0, 13)):
-                    if first is None and last is None:
-                        continue
-                    if first is not None and last is not None and first > last:
-                        continue
-                    n += 1
-                    kind, val = interpret(f, {ps[1]: first, ps[2]: last, "self": None}, {"self.getFileSize()": size, "self.getsize()": size})
-                    exp = oracle(size, first, last) or (0, 0)
-                    if kind != "return" or tuple(val) != exp:
-                        bad.append((size, first, last, val, exp))
-    except InterpError as e:
-        raise AnalysisError(f"C25: _rangeToOffsetAndSize is no longer a pure loop-free function the evaluator can interpret: {e}")
-    msg = ""
-    if bad:
-        s_, a, b, got, exp = bad[0]
-        rng = f"-{b}" if a is None else f"{a}-{'' if b is None else b}"
-        msg = f"Range: bytes={rng} on a {s_}-byte file gives (offset, size) = {got}, RFC 9110: {exp}; {len(bad)} of {n} cases differ"
-    ctx.check(not bad, "arith/range-to-offset", q, msg, detail=f"{n} (size, first, last) cases equal the oracle")
-    ctx.extra["finite_cases_range_arithmetic"] = n
-
-
-def _content_range(ctx):
-    f = ctx.func(S, "File._contentRange")
-    q = Q + "File._contentRange"
-    ps = param_names(f)
-    bad = []
-    funcs = {"networkString": lambda s_: s_.encode("ascii"), "nativeString": lambda s_: s_.decode("ascii") if isinstance(s_, bytes) else s_}
-    try:
-        for size in (1, 7, 10, 12345):
-            for off in (0, 1, 6):
-                for ln in (1, 2, 5):
-                    kind, got = interpret(f, {ps[1]: off, ps[2]: ln, "self": None}, {"self.getFileSize()": size, "self.getsize()": size}, funcs=funcs)
-                    if isinstance(got, bytes):
-                        got = got.decode()
-                    if kind != "return" or got != f"bytes {off}-{off + ln - 1}/{size}":
-                        bad.append((off, ln, size, got))
-    except InterpError as ex:
-        raise AnalysisError(f"C25: _contentRange uses a construct the evaluator cannot interpret: {ex}")
-    ctx.check(not bad, "arith/content-range", q, f"Content-Range for (offset, size, total) = {bad[0][:3]} is {bad[0][3]!r}" if bad else "")
-
-
-def _parse(ctx):
-    f = ctx.func(S, "File._parseRangeHeader")
-    g = ctx.cfg(f)
-    q = Q + "File._parseRangeHeader"
-    raises = g.ids(lambda x: x.kind == "stmt" and isinstance(x.ast, ast.Raise))
-    for r in raises:
-        st = g.node(r).ast
-        e = st.exc.func if isinstance(st.exc, ast.Call) else st.exc
-        ctx.check(e is not None and src(e) == "ValueError", "parse/raises-only-valueerror", ctx.construct(q, st),
-                  "a malformed Range header raises something other than ValueError, which makeProducer does not catch (500 instead of the whole content)")
-    ctx.floor("parse/raises-only-valueerror", len(raises), 5)
-    # implicit raisers: int() and tuple-unpacking of split() must be under `except ValueError`
-    sites = [c for c in walk_local(f) if isinstance(c, ast.Call) and call_name(c) == "int"] + \
-            [s for s in walk_local(f) if isinstance(s, ast.Assign) and any(isinstance(t, (ast.Tuple, ast.List)) for t in s.targets)]
-    for s in sites:
-        hs = enclosing_try_handlers(f, s)
-        ok = any(nm in ("ValueError", "Exception", "<bare>", "BaseException") for h in hs for nm in handler_names(h))
-        ctx.check(ok, "parse/implicit-errors-converted", ctx.construct(q, s), "a conversion / unpacking that fails on a malformed header is not inside `except ValueError`")
-    ctx.floor("parse/implicit-errors-converted", len(sites), 4)
-    # numeric fields must be 1*DIGIT: int() alone also accepts '+5', '-5', '1_0', ' 5'
-    for c in [c for c in walk_local(f) if isinstance(c, ast.Call) and call_name(c) == "int"]:
-        arg = src(c.args[0]) if c.args else ""
-        nid = g.ids_of(c)
-        digits = any(isinstance(g.node(t).ast, ast.Call) and call_name(g.node(t).ast) == f"{arg}.isdigit" and lab == "T" for n_ in nid for t, lab in g.edge_guards(n_))
-        ctx.check(digits or call_name(c) == "_decint", "parse/digits-only", ctx.construct(q, c),
-                  "a byte position is converted with bare int(): 'bytes=+1-2' and 'bytes=1_0-' are served as ranges and 'bytes=--5' answers 416 although the header is malformed "
-                  "(RFC 9110: 1*DIGIT; the property demands the whole content with 200)")
-    # unit test
-    units = [r for r in raises if any(cmp_polarity(g.node(t).ast, "kind", "b'bytes'") is not None and (cmp_polarity(g.node(t).ast, "kind", "b'bytes'") != (lab == "T"))
-                                      for t, lab in g.edge_guards(r))]
-    ctx.check(len(units) == 1, "parse/unit-bytes", q, "a range unit other than 'bytes' is not refused")
-    # reversed range and empty spec
-    rev = [r for r in raises if any(lincmp(g.node(t).ast, negate=(lab == "F")) == lin_expect({"start": 1, "end": -1}, 1) for t, lab in g.edge_guards(r))]
-    ctx.check(len(rev) == 1 and none_guard(g, rev[0], "start", False) and none_guard(g, rev[0], "end", False), "parse/reversed-range", q,
-              "a byte-range is not refused exactly when first > last (bytes=5-5 is valid, bytes=6-5 is not)")
-    both = [r for r in raises if none_guard(g, r, "start", True) and none_guard(g, r, "end", True)]
-    ctx.check(len(both) >= 1, "parse/empty-spec", q, "a range-spec with neither first nor last ('-') is not refused")
-    app = call_sites(g, lambda c: call_name(c) == "parsedRanges.append")
-    ctx.check(len(app) == 1 and src(app[0][1].args[0]) == "(start, end)", "parse/result", q, "parsed ranges are not collected as (start, end) pairs")
-    # the result must not be empty (the callers index [0] / hand the list to the multi-range path)
-    rets = g.ids(lambda x: x.kind == "stmt" and isinstance(x.ast, ast.Return))
-    for r in rets:
-        v = src(g.node(r).ast.value)
-        ok = truth_guard(g, r, v, True) or truth_guard(g, r, "unparsedRanges", True) or any(
-            lincmp(g.node(t).ast, negate=(lab == "F")) in (lin_expect({f"len({v})": 1}, 1), lin_expect({"len(unparsedRanges)": 1}, 1)) for t, lab in g.edge_guards(r))
-        ctx.check(ok, "parse/nonempty-result", ctx.construct(q, g.node(r).ast),
-                  "an empty range-set ('bytes=' or 'bytes=,') is returned as an empty list although the contract is 'length at least one': makeProducer takes the multi-range path "
-                  "with no ranges and the producer crashes (500)")
-
-
-# ---- the Range parser, evaluated --------------------------------------------------------------------------------------
 def rfc_ranges(value: bytes):
-    """RFC 9110 14.1.1/14.1.2 oracle: list of (first, last) with None for an absent position, or None when the header is malformed."""
+    """list of (first, last) with None for an absent position, or None when the header is malformed (RFC 9110 14.1.1 / 14.1.2)"""
     if b"=" not in value:
         return None
     unit, rest = value.split(b"=", 1)
@@ -176,7 +51,7 @@ def rfc_ranges(value: bytes):
     for spec in rest.split(b","):
         spec = spec.strip(b" \t")
         if not spec:
-            continue                                   # empty list elements are tolerated (RFC 9110 5.6.1.2)
+            continue
         if b"-" not in spec:
             return None
         a, b = spec.split(b"-", 1)
@@ -192,442 +67,308 @@ def rfc_ranges(value: bytes):
     return out or None
 
 
-SPECS = [b"0-0", b"5-0", b"0-", b"-0", b"1-0", b"5-5", b"6-5", b"3-", b"-3", b"-", b"a-b", b"1-a", b"a-1", b"10-20", b"0-1", b"7", b"1-2-3", b"-1-2"]
+def expected(content: bytes, header):
+    """("whole" | "partial" | "multi" | "unsatisfiable", details) for a GET with this Range header"""
+    ranges = rfc_ranges(header) if header is not None else None
+    if ranges is None:
+        return ("whole", None)
+    parts = [oracle(len(content), a, b) for a, b in ranges]
+    sat = [p for p in parts if p is not None]
+    if not sat:
+        return ("unsatisfiable", None)
+    if len(ranges) == 1:
+        return ("partial", sat[0])
+    return ("multi", sat)
 
 
-def _range_values():
-    vals = [b"bytes=" + s_ for s_ in SPECS]
-    vals += [b"bytes=" + a + sep + b for a in SPECS[:12] for b in SPECS[:12] for sep in (b",", b", ")]
-    vals += [b"bytes=0-0,3-0", b"bytes=1-2,,4-5", b"kilos=1-2", b"bytes 1-2", b"1-2", b"", b"=", b"bytes=1-2,4-,-7", b"BYTES=1-2", b"bytes=0-0,0-0"]
-    # inputs on which today's parser is knowingly lenient (known findings F25d/F25e) are not part of this grid: signs/underscores/inner blanks, the empty range-set
-    return [v for v in vals if rfc_ranges(v) is not None or not (v.endswith(b"=") or b"=," == v[-2:])]
-
-
-def _parse_evaluated(ctx):
-    f = ctx.func(S, "File._parseRangeHeader")
-    q = Q + "File._parseRangeHeader"
-    pn = param_names(f)[1]
-    bad = []
-    n = 0
-    try:
-        for v in _range_values():
-            if v in (b"bytes=-1-2",):
-                continue                               # int(b'-1') leniency: F25d
-            n += 1
-            kind, got = interpret(f, {pn: v, "self": None})
-            want = rfc_ranges(v)
-            if want is None:
-                if not (kind == "raise" and got == "ValueError"):
-                    bad.append((v, f"{kind} {got!r}", "ValueError (malformed: the whole content is served)"))
-            elif kind != "return" or [tuple(x) for x in got] != want:
-                bad.append((v, f"{kind} {got!r}", repr(want)))
-    except InterpError as e:
-        raise AnalysisError(f"C25: _parseRangeHeader uses a construct the evaluator cannot interpret: {e}")
-    msg = f"Range: {bad[0][0].decode('latin-1')} is parsed as {bad[0][1]}, RFC 9110: {bad[0][2]}; {len(bad)} of {n} header values differ" if bad else ""
-    ctx.check(not bad, "parse/evaluated", q, msg, detail=f"{n} header values equal the oracle")
-    ctx.extra["finite_cases_range_parser"] = n
-
-
-class _Req:
+# ---- models ----------------------------------------------------------------------------------------------------------------------------------
+class _Request:
     _sa_model = True
+    _sa_settable = True
 
-    def __init__(self):
-        self.code = None
+    def __init__(self, header):
+        self.header = header
+        self.code = 200
         self.headers = {}
+        self.written = []
+        self.producer = None
+        self.finished = 0
+        self.method = b"GET"
 
-    def setResponseCode(self, code, *a):
-        self.code = code
+    def getHeader(self, name):
+        return self.header if name.lower() == b"range" else None
 
     def setHeader(self, k, v):
         self.headers[k.lower()] = v
 
+    def setResponseCode(self, code, *a):
+        self.code = code
 
-def _multiple_evaluated(ctx):
-    f = ctx.func(S, "File._doMultipleRangeRequest")
-    conv = ctx.func(S, "File._rangeToOffsetAndSize")
-    cr = ctx.func(S, "File._contentRange")
-    q = Q + "File._doMultipleRangeRequest"
-    ps = param_names(f)
+    def write(self, data):
+        self.written.append(data)
+
+    def registerProducer(self, producer, streaming):
+        self.producer = producer
+
+    def unregisterProducer(self):
+        self.producer = None
+
+    def finish(self):
+        self.finished += 1
+
+
+class _FileObj:
+    """an open binary file: read(n) with n < -1 raises ValueError like io.BufferedReader does"""
+    _sa_model = True
+
+    def __init__(self, content):
+        self.content, self.pos, self.closed, self.reads = content, 0, False, []
+
+    def seek(self, pos, whence=0):
+        if pos < 0:
+            raise OSError(22, "Invalid argument")
+        self.pos = pos
+
+    def read(self, n=-1):
+        self.reads.append(n)
+        if n is not None and n < -1:
+            raise ValueError("read length must be non-negative or -1")
+        if n is None or n == -1:
+            data = self.content[self.pos:]
+        else:
+            data = self.content[self.pos:self.pos + n]
+        self.pos += len(data)
+        return data
+
+    def close(self):
+        self.closed = True
+
+
+class _NS:
+    _sa_model = True
+
+    def __init__(self, **kw):
+        self.__dict__.update(kw)
+
+
+CODES = {"OK": 200, "PARTIAL_CONTENT": 206, "REQUESTED_RANGE_NOT_SATISFIABLE": 416, "NOT_MODIFIED": 304, "CACHED": object()}
+
+
+def _world(ctx, buffer_size=65536):
+    for fn in ("File.makeProducer", "File._parseRangeHeader", "File._rangeToOffsetAndSize", "File._contentRange", "File._doSingleRangeRequest", "File._doMultipleRangeRequest",
+               "File._setContentHeaders", "SingleRangeStaticProducer.resumeProducing", "MultipleRangeStaticProducer.resumeProducing", "NoRangeStaticProducer.resumeProducing"):
+        ctx.func(S, fn)
+    ext = {"networkString": lambda s_: s_.encode("ascii"), "nativeString": lambda s_: s_.decode("ascii") if isinstance(s_, bytes) else s_, "log.msg": lambda *a, **k: None,
+           "log.err": lambda *a, **k: None, "time.time": lambda: 1234.5, "os.getpid": lambda: 4242, "implementer": lambda *a: (lambda c: c), "Logger": lambda *a, **k: NullLogger()}
+    env = {"http": _NS(**CODES), "abstract": _NS(FileDescriptor=_NS(bufferSize=buffer_size)), "server": _NS(NOT_DONE_YET=1)}
+    w = World(ctx.mod(S), externals=ext, env=env)
+    w.override("getFileSize", lambda o: SIZE[0])
+    return w
+
+
+SIZE = [0]
+
+
+def _serve(w, content, header, ctype="text/plain"):
+    """one GET through File.makeProducer + the producer driven to its end; returns (request model, exception name or None)"""
+    f = w.bare("File", type=ctype, encoding=None, path="/t/f.txt")
+    SIZE[0] = len(content)
+    req = _Request(header)
+    fobj = _FileObj(content)
+    try:
+        producer = f.makeProducer(req, fobj)
+        producer.start()
+        for _ in range(4000):
+            if req.finished or req.producer is None:
+                break
+            req.producer.resumeProducing()
+        else:
+            return req, fobj, "<the producer never finishes>"
+    except ModelRaised as e:
+        return req, fobj, e.name
+    except InterpError as e:
+        if "step limit" in str(e):
+            return req, fobj, "<a loop that does not terminate>"
+        raise
+    return req, fobj, None
+
+
+def _parse_multipart(body: bytes, boundary: bytes):
+    """[(content-type, content-range, data)] or None"""
+    delim = b"\r\n--" + boundary
+    if not body.startswith(delim):
+        return None
+    pieces = body.split(delim)
+    if pieces[0] != b"" or not pieces[-1].startswith(b"--\r\n") or pieces[-1] != b"--\r\n":
+        return None
+    out = []
+    for piece in pieces[1:-1]:
+        if not piece.startswith(b"\r\n") or b"\r\n\r\n" not in piece:
+            return None
+        head, data = piece[2:].split(b"\r\n\r\n", 1)
+        hdrs = dict((l.split(b":", 1)[0].strip().lower(), l.split(b":", 1)[1].strip()) for l in head.split(b"\r\n") if b":" in l)
+        out.append((hdrs.get(b"content-type"), hdrs.get(b"content-range"), data))
+    return out
+
+
+def _verdict(content, header, req, fobj, exc):
+    """list of problems of one response against the oracle"""
+    kind, det = expected(content, header)
+    body = b"".join(req.written)
+    size = len(content)
+    H = req.headers
+    why = []
+    if exc:
+        return [f"fails with an internal error ({exc})"]
+    if req.finished != 1:
+        why.append(f"the response is finished {req.finished} times")
+    if not fobj.closed:
+        why.append("the file is left open")
+    if kind == "whole":
+        if req.code != 200 or body != content or H.get(b"content-length") != str(size).encode():
+            why.append(f"answers {req.code} with {len(body)} body bytes, Content-Length {H.get(b'content-length')!r} instead of 200 with the whole {size}-byte content")
+    elif kind == "partial":
+        off, ln = det
+        if req.code != 206 or body != content[off:off + ln] or H.get(b"content-length") != str(ln).encode() or H.get(b"content-range") != f"bytes {off}-{off + ln - 1}/{size}".encode():
+            why.append(f"answers {req.code}, body {body[:24]!r} ({len(body)} bytes), Content-Length {H.get(b'content-length')!r}, Content-Range {H.get(b'content-range')!r} instead of 206 "
+                       f"with bytes {off}-{off + ln - 1}/{size}")
+    elif kind == "unsatisfiable":
+        if req.code != 416 or body != b"" or H.get(b"content-range") != f"bytes */{size}".encode() or H.get(b"content-length") not in (b"0",):
+            why.append(f"answers {req.code}, {len(body)} body bytes, Content-Range {H.get(b'content-range')!r}, Content-Length {H.get(b'content-length')!r} instead of 416 with `bytes */{size}`")
+    else:
+        ct = H.get(b"content-type", b"")
+        parts = None
+        if req.code == 206 and ct.startswith(b"multipart/byteranges; boundary=") :
+            parts = _parse_multipart(body, ct.split(b"boundary=", 1)[1].strip(b'"'))
+        if parts is None:
+            why.append(f"answers {req.code} with Content-Type {ct!r} and a body that is not multipart/byteranges with that boundary: {body[:60]!r}")
+        else:
+            want = [(f"bytes {o}-{o + l - 1}/{size}".encode(), content[o:o + l]) for o, l in det]
+            got = [(cr, data) for t, cr, data in parts]
+            if got != want:
+                why.append(f"sends the parts {[(a.decode() if a else a, len(b)) for a, b in got]} instead of {[(a.decode(), len(b)) for a, b in want]} (in request order)")
+            if H.get(b"content-length") != str(len(body)).encode():
+                why.append(f"announces Content-Length {H.get(b'content-length')!r} for a body of {len(body)} bytes")
+    return why
+
+
+def _hdr(h):
+    return "no Range header" if h is None else "Range: " + h.decode("latin-1")
+
+
+def _run_grid(ctx, w, rule, construct, cases, what):
     bad = []
     n = 0
-    size = 10
-    base = {"self.getFileSize()": size, "self.getsize()": size, "self.type": "text/plain", "http.PARTIAL_CONTENT": 206, "http.REQUESTED_RANGE_NOT_SATISFIABLE": 416}
-    common = {"networkString": lambda s_: s_.encode("ascii"), "nativeString": lambda s_: s_.decode("ascii") if isinstance(s_, bytes) else s_,
-              "time.time": lambda: 1.5, "os.getpid": lambda: 4242}
-
-    def sub(fn):
-        def run(*args):
-            kind, val = interpret(fn, dict(zip(param_names(fn)[1:], args), self=None), base, funcs=common)
-            if kind == "raise":
-                raise RuntimeError(val)
-            return val
-        return run
-    funcs = dict(common)
-    funcs["self._rangeToOffsetAndSize"] = sub(conv)
-    funcs["self._contentRange"] = sub(cr)
-    cases = [[(0, 0), (2, 3)], [(2, 3), (0, 0)], [(5, None), (0, 1)], [(None, 3), (0, 0)], [(0, 0), (None, 3)], [(8, None), (None, 2), (1, 1)], [(0, 0), (50, 60)], [(50, 60), (4, 5)],
-             [(9, 100), (0, 0)], [(3, 3), (3, 3)]]
-    try:
-        for ranges in cases:
-            n += 1
-            req = _Req()
-            kind, val = interpret(f, {ps[1]: req, ps[2]: list(ranges), "self": None}, base, funcs=funcs)
-            want = [oracle(size, a, b) for a, b in ranges]
-            want = [w for w in want if w is not None]
-            if kind != "return":
-                bad.append((ranges, f"raises {val}"))
-                continue
-            try:
-                parts = [(o, s_) for sep, o, s_ in val if (o, s_) != (0, 0) or sep and not sep.endswith(b"--\r\n")]
-                seps = [sep for sep, o, s_ in val]
-            except Exception:
-                bad.append((ranges, f"returns {val!r}"))
-                continue
-            if parts != want:
-                bad.append((ranges, f"sends the parts {parts}, requested order is {want}"))
-            elif req.code != 206:
-                bad.append((ranges, f"answers {req.code}"))
-            elif req.headers.get(b"content-length") != str(sum(len(x) for x in seps) + sum(s_ for o, s_ in parts)).encode():
-                bad.append((ranges, f"announces Content-Length {req.headers.get(b'content-length')!r}, the body has {sum(len(x) for x in seps) + sum(s_ for o, s_ in parts)} bytes"))
-    except InterpError as e:
-        raise AnalysisError(f"C25: _doMultipleRangeRequest uses a construct the evaluator cannot interpret: {e}")
+    for content, header in cases:
+        n += 1
+        req, fobj, exc = _serve(w, content, header)
+        why = _verdict(content, header, req, fobj, exc)
+        if why:
+            bad.append((len(content), header, why))
     msg = ""
     if bad:
-        r_, why = bad[0]
-        hdr = ",".join(("-%d" % b if a is None else "%d-%s" % (a, "" if b is None else b)) for a, b in r_)
-        msg = f"Range: bytes={hdr} on a {size}-byte file: {why}; {len(bad)} of {n} multi-range requests wrong"
-    ctx.check(not bad, "multi/evaluated", q, msg, detail=f"{n} multi-range requests")
+        size, header, why = bad[0]
+        msg = f"{_hdr(header)} on a {size}-byte file: " + "; ".join(why[:2]) + f"; {len(bad)} of {n} {what} wrong"
+    ctx.check(not bad, rule, construct, msg, detail=f"{n} {what}")
+    return n
 
 
-LENIENT = {"replace", "ignore", "backslashreplace", "surrogateescape"}
+SPECS = [b"0-0", b"5-0", b"0-", b"-0", b"1-0", b"5-5", b"6-5", b"3-", b"-3", b"-", b"a-b", b"1-a", b"10-20", b"0-1", b"7", b"1-2-3", b"-5000", b"9-", b"10-", b"2-100", b"-10"]
 
 
-def _make_producer(ctx):
-    f = ctx.func(S, "File.makeProducer")
-    g = ctx.cfg(f)
-    q = Q + "File.makeProducer"
-    hdr = [st for st in walk_local(f) if isinstance(st, ast.Assign) and isinstance(st.value, ast.Call) and call_attr(st.value) == "getHeader" and
-           const_or_none(st.value.args[0]) == b"range"]
-    ctx.need(len(hdr) == 1 and isinstance(hdr[0].targets[0], ast.Name), "byteRange = request.getHeader(b'range')")
-    raw = hdr[0].targets[0].id
-    pr = named_calls(g, "self._parseRangeHeader")
-    ctx.check(len(pr) == 1, "escape/parse-guarded", q, "the Range header is not parsed exactly once")
-    for n, c in pr:
-        hs = enclosing_try_handlers(f, c)
-        ok = any("ValueError" in handler_names(h) or "Exception" in handler_names(h) for h in hs)
-        ctx.check(ok and none_guard(g, n, raw, False), "escape/parse-guarded", ctx.construct(q, c), "ValueError from the Range parser is not caught (or the header may be None)")
-        for h in hs:
-            # untrusted bytes inside the handler: only lenient decoding / repr
-            for c2 in [x for x in ast.walk(h) if isinstance(x, ast.Call)]:
-                uses = any(isinstance(x, ast.Name) and x.id == raw for a in list(c2.args) + [k.value for k in c2.keywords] for x in ast.walk(a)) or \
-                    (isinstance(c2.func, ast.Attribute) and src(c2.func.value) == raw)
-                if not uses:
+def check(ctx):
+    for name, fn in (("arithmetic", _arithmetic), ("responses", _responses), ("known-multi-unsatisfiable", _known_multi_unsat), ("known-empty-range-set", _known_empty),
+                     ("known-lenient-integers", _known_lenient), ("known-boundary-overruns-buffer", _known_overrun)):
+        with ctx.section(name):
+            try:
+                fn(ctx)
+            except InterpError as e:
+                raise AnalysisError(f"C25/{name}: the code uses a construct the evaluator cannot interpret: {e}")
+
+
+def _arithmetic(ctx):
+    w = _world(ctx)
+    q = Q + "File._rangeToOffsetAndSize"
+    bad = []
+    n = 0
+    for size in range(1, 10):
+        SIZE[0] = size
+        f = w.bare("File", type="text/plain", encoding=None)
+        for first in [None] + list(range(0, 13)):
+            for last in [None] + list(range(0, 13)):
+                if (first is None and last is None) or (first is not None and last is not None and first > last):
                     continue
-                nm = call_attr(c2)
-                if nm == "decode" and src(c2.func.value) == raw:
-                    err = c2.args[1] if len(c2.args) > 1 else next((k.value for k in c2.keywords if k.arg == "errors"), None)
-                    ok2 = isinstance(err, ast.Constant) and err.value in LENIENT
-                    ctx.check(ok2, "escape/handler-lenient", ctx.construct(q, c2),
-                              "the malformed-header handler decodes the raw header strictly: `Range: \\xff` raises UnicodeDecodeError inside the handler (500 instead of the whole content)")
-                elif nm in ("nativeString", "str", "encode", "int", "float"):
-                    direct = any(src(a) == raw for a in c2.args)
-                    ctx.check(not direct, "escape/handler-lenient", ctx.construct(q, c2), "the malformed-header handler converts the raw header with a call that can raise")
-            # the handler serves the whole content with 200
-            hid = g.ids_of(h)
-            ok_code = [m for m, c3 in named_calls(g, "request.setResponseCode") if src(c3.args[0]) == "http.OK"]
-            whole = [m for m, c3 in named_calls(g, "NoRangeStaticProducer")]
-            w = from_here(g, hid, set(ok_code)) or from_here(g, hid, set(whole))
-            ctx.check(w is None, "dispatch/malformed-whole", q + f" | except {'/'.join(handler_names(h))}", "a malformed Range header is not answered with 200 and the whole content", witness=g.describe(w))
-            for m, c3 in named_calls(g, "self._setContentHeaders"):
-                if any(x is c3 for x in ast.walk(h)):
-                    ctx.check(len(c3.args) == 1, "dispatch/malformed-whole", ctx.construct(q, c3), "the whole-content answer is given a partial Content-Length")
-    # absent header
-    whole = named_calls(g, "NoRangeStaticProducer")
-    ctx.check(any(none_guard(g, n, raw, True) for n, c in whole), "dispatch/absent-whole", q, "an absent Range header is not answered with the whole content")
-    # single / multiple
-    sg = named_calls(g, "SingleRangeStaticProducer")
-    mp = named_calls(g, "MultipleRangeStaticProducer")
-    ctx.check(len(sg) == 1 and len(mp) == 1, "dispatch/single-vs-multiple", q, "makeProducer does not have one single-range and one multi-range branch")
-    for n, c in sg:
-        ok = any(cmp_polarity(g.node(t).ast, "len(parsedRanges)", "1") is not None and (cmp_polarity(g.node(t).ast, "len(parsedRanges)", "1") == (lab == "T")) for t, lab in g.edge_guards(n))
-        ctx.check(ok, "dispatch/single-vs-multiple", ctx.construct(q, c), "the single-range answer is not chosen exactly for one parsed range")
-        d = [st for st in walk_local(f) if isinstance(st, ast.Assign) and isinstance(st.value, ast.Call) and call_name(st.value) == "self._doSingleRangeRequest"]
-        ok = len(d) == 1 and isinstance(d[0].targets[0], ast.Tuple) and [src(a) for a in c.args][2:] == [src(e) for e in d[0].targets[0].elts] and \
-            [src(a) for a in d[0].value.args] == [param_names(f)[1], "parsedRanges[0]"] and [src(a) for a in c.args][:2] == param_names(f)[1:3]
-        ctx.check(ok, "dispatch/single-args", ctx.construct(q, c), "the producer is not given the (offset, size) computed by _doSingleRangeRequest for parsedRanges[0]")
-        if ok:
-            size_name = src(d[0].targets[0].elts[1])
-            sch = [c3 for m, c3 in named_calls(g, "self._setContentHeaders") if len(c3.args) == 2 and src(c3.args[1]) == size_name]
-            ctx.check(len(sch) == 1 and g.must_precede(g.ids_of(sch[0]), [n]) is None, "dispatch/single-args", q + " | Content-Length of the part",
-                      "Content-Length of a single-range answer is not the computed part size")
-    for n, c in mp:
-        d = [st for st in walk_local(f) if isinstance(st, ast.Assign) and isinstance(st.value, ast.Call) and call_name(st.value) == "self._doMultipleRangeRequest"]
-        ok = len(d) == 1 and [src(a) for a in c.args] == param_names(f)[1:3] + [src(d[0].targets[0])] and [src(a) for a in d[0].value.args] == [param_names(f)[1], "parsedRanges"]
-        ctx.check(ok, "dispatch/multi-args", ctx.construct(q, c), "the multi-range producer is not given the rangeInfo computed for all parsed ranges")
-
-    f = ctx.func(S, "File._setContentHeaders")
-    g = ctx.cfg(f)
-    q = Q + "File._setContentHeaders"
-    sp = param_names(f)[2]
-    for st in local_assignments(f, sp):
-        ok = all(any(cmp_polarity(g.node(t).ast, sp, "None") is not None and cmp_polarity(g.node(t).ast, sp, "None") == (lab == "T") for t, lab in g.edge_guards(i)) for i in g.ids_of(st))
-        ctx.check(ok and src(st.value) == "self.getFileSize()", "headers/content-length", ctx.construct(q, st),
-                  "the size is defaulted to the file size under a test other than `size is None`: a zero-length answer (416) would announce the whole file")
-    cl = [c for n, c in named_calls(g, "request.setHeader") if const_or_none(c.args[0]) == b"content-length"]
-    ok = len(cl) == 1 and isinstance(cl[0].args[1], ast.BinOp) and const_or_none(cl[0].args[1].left) == b"%d" and src(cl[0].args[1].right) in (f"({sp},)", sp)
-    ctx.check(ok, "headers/content-length", q + " | value", "Content-Length is not the decimal size")
+                n += 1
+                try:
+                    got = tuple(f._rangeToOffsetAndSize(first, last))
+                except ModelRaised as e:
+                    got = f"raises {e.name}"
+                exp = oracle(size, first, last) or (0, 0)
+                if got != exp:
+                    bad.append((size, first, last, got, exp))
+    msg = ""
+    if bad:
+        s_, a, b, got, exp = bad[0]
+        rng = f"-{b}" if a is None else f"{a}-{'' if b is None else b}"
+        msg = f"Range: bytes={rng} on a {s_}-byte file gives (offset, size) = {got}, RFC 9110: {exp}; {len(bad)} of {n} cases differ"
+    ctx.check(not bad, "arith/range-to-offset", q, msg, detail=f"{n} (size, first, last) cases equal the oracle")
+    ctx.extra["finite_cases_range_arithmetic"] = n
 
 
-def const_or_none(node):
-    try:
-        return const_eval(node)
-    except NotConst:
-        return None
+def _responses(ctx):
+    w = _world(ctx)
+    content = b"0123456789"
+    headers = [None, b"\xff", b"\xffbytes=0-1", b"kilos=1-2", b"bytes 1-2", b"1-2", b"", b"=", b"BYTES=1-2", b"bytes=1-2,,4-5", b"bytes=0-0,0-0", b"bytes=1-2,4-,-7", b"bytes=9-,0-0,-1"]
+    headers += [b"bytes=" + s_ for s_ in SPECS]
+    headers += [b"bytes=" + a + sep + b for a in SPECS[:9] + [b"9-", b"10-20"] for b in SPECS[:9] + [b"10-20"] for sep in (b",",)]
+    headers += [b"bytes=" + a + b", " + b for a in (b"0-0", b"-3", b"5-") for b in (b"2-3", b"8-")]
+    cases = [(content, h) for h in headers if expected(content, h)[0] != "unsatisfiable" or rfc_ranges(h) is None or len(rfc_ranges(h)) == 1]
+    cases += [(b"x", h) for h in (None, b"bytes=0-0", b"bytes=-1", b"bytes=1-", b"bytes=0-,0-0")]
+    big = bytes(range(256)) * 3
+    cases += [(big, h) for h in (None, b"bytes=0-299", b"bytes=100-", b"bytes=-700", b"bytes=0-99,200-299,700-", b"bytes=5-5,767-767")]
+    n = _run_grid(ctx, w, "range/evaluated-responses", Q + "File.makeProducer | <Range header x content grid>", cases, "responses")
+    ctx.extra["responses_evaluated"] = n
+    # transport buffers smaller than the ranges (several resumeProducing turns per part); sizes chosen so that no separator straddles the buffer end (that is F25f)
+    for bs in (3, 7):
+        w2 = _world(ctx, buffer_size=bs)
+        _run_grid(ctx, w2, "range/evaluated-responses", Q + f"File.makeProducer | <bufferSize {bs}>", [(big, None), (big, b"bytes=10-300"), (content, b"bytes=2-8"), (content, None)],
+                  f"responses with bufferSize {bs}")
+    # multi-range parts larger than the transport buffer (several turns per part; sizes chosen so that no separator straddles the buffer end)
+    big2 = bytes(range(250)) * 20
+    w3 = _world(ctx, buffer_size=1000)
+    _run_grid(ctx, w3, "range/evaluated-responses", Q + "File.makeProducer | <bufferSize 1000, parts of 2500 bytes>", [(big2, b"bytes=0-2499,2500-4999"), (big2, b"bytes=100-1299,3000-")],
+              "multi-range responses with parts larger than the buffer")
+    # another content type (used in the part headers) and none at all
+    req, fobj, exc = _serve(w, content, b"bytes=0-1,4-5", ctype=None)
+    parts = _parse_multipart(b"".join(req.written), req.headers.get(b"content-type", b"").split(b"boundary=", 1)[-1].strip(b'"')) if exc is None else None
+    ctx.check(exc is None and parts is not None and [d for t, cr, d in parts] == [b"01", b"45"], "range/evaluated-responses", Q + "File.makeProducer | <no content type>",
+              f"a multi-range answer for a file without content type: raises {exc}, parts {parts!r}")
 
 
-def _status_sites(g, code):
-    return [n for n, c in named_calls(g, "request.setResponseCode") if c.args and src(c.args[0]) == "http." + code]
+def _known_multi_unsat(ctx):
+    w = _world(ctx)
+    content = b"0123456789"
+    _run_grid(ctx, w, "range/multi-unsatisfiable", Q + "File | several ranges, none satisfiable", [(content, b"bytes=100-200,300-400"), (content, b"bytes=-0,-0"), (content, b"bytes=10-,20-30,-0")],
+              "multi-range requests without a satisfiable range")
 
 
-def _single(ctx):
-    f = ctx.func(S, "File._doSingleRangeRequest")
-    g = ctx.cfg(f)
-    q = Q + "File._doSingleRangeRequest"
-    conv = [st for st in walk_local(f) if isinstance(st, ast.Assign) and isinstance(st.value, ast.Call) and call_name(st.value) == "self._rangeToOffsetAndSize"]
-    ctx.need(len(conv) == 1 and isinstance(conv[0].targets[0], ast.Tuple), "offset, size = self._rangeToOffsetAndSize(...)")
-    off, size = [src(e) for e in conv[0].targets[0].elts]
-    unp = [st for st in walk_local(f) if isinstance(st, ast.Assign) and src(st.value) == param_names(f)[2]]
-    ok = len(unp) == 1 and isinstance(unp[0].targets[0], ast.Tuple) and [src(a) for a in conv[0].value.args] == [src(e) for e in unp[0].targets[0].elts]
-    ctx.check(ok, "single/args", q, "the (start, end) pair is not passed on in order")
-    uns = _status_sites(g, "REQUESTED_RANGE_NOT_SATISFIABLE")
-    par = _status_sites(g, "PARTIAL_CONTENT")
-    ctx.check(len(uns) == 1 and len(par) == 1, "single/status", q, "416 / 206 are not each set at one site")
-
-    def reach_mismatch(n, want_zero):
-        """cases (offset, size) in {0,1}^2 where reachability of node n (tests on offset/size resolved) is not `(offset, size) == (0, 0)` == want_zero"""
-        bad = []
-        for o in (0, 1):
-            for s_ in (0, 1):
-                R = g.reach([g.entry], edge_ok=resolver(g, {off: o, size: s_}))
-                if (n in R) != (((o, s_) == (0, 0)) == want_zero):
-                    bad.append((o, s_))
-        return bad
-    for n in uns:
-        bad = reach_mismatch(n, True)
-        ctx.check(not bad, "single/status", ctx.construct(q, g.node(n).ast), f"416 is not answered exactly for the unsatisfiable (0, 0) outcome (wrong for (offset, size) in {bad})")
-    for n in par:
-        bad = reach_mismatch(n, False)
-        ctx.check(not bad, "single/status", ctx.construct(q, g.node(n).ast), f"206 is not answered exactly for a satisfiable range (wrong for (offset, size) in {bad})")
-        crs = [m for m, c in named_calls(g, "request.setHeader") if const_or_none(c.args[0]) == b"content-range" and src(c.args[1]) == f"self._contentRange({off}, {size})"]
-        w = g.must_pass([n], crs, exc=False)
-        ctx.check(bool(crs) and w is None, "single/content-range", q + " | 206", "a 206 answer lacks the Content-Range of the computed part", witness=g.describe(w))
-    for n in uns:
-        crs = [m for m, c in named_calls(g, "request.setHeader") if const_or_none(c.args[0]) == b"content-range" and "bytes */%d" in src(c.args[1]) and "self.getFileSize()" in src(c.args[1])]
-        w = g.must_pass([n], crs, exc=False)
-        ctx.check(bool(crs) and w is None, "single/content-range", q + " | 416", "a 416 answer lacks `Content-Range: bytes */size`", witness=g.describe(w))
-    rets = g.ids(lambda x: x.kind == "stmt" and isinstance(x.ast, ast.Return))
-    ctx.check(all(src(g.node(r).ast.value) == f"({off}, {size})" for r in rets) and rets, "single/args", q + " | result", "the computed (offset, size) is not returned")
+def _known_empty(ctx):
+    w = _world(ctx)
+    _run_grid(ctx, w, "range/empty-range-set", Q + "File | empty range-set", [(b"0123456789", b"bytes="), (b"0123456789", b"bytes=,"), (b"0123456789", b"bytes= , ")], "headers with an empty range-set")
 
 
-def _multiple(ctx):
-    f = ctx.func(S, "File._doMultipleRangeRequest")
-    g = ctx.cfg(f)
-    q = Q + "File._doMultipleRangeRequest"
-    rp = param_names(f)[2]
-    loops = [s for s in walk_local(f) if isinstance(s, ast.For) and any(isinstance(c, ast.Call) and call_name(c) == "self._rangeToOffsetAndSize" for c in ast.walk(s))]
-    ctx.need(len(loops) == 1, "the loop over the requested ranges (the one that calls self._rangeToOffsetAndSize)")
-    loop = loops[0]
-    it = src(loop.iter)
-    in_order = it in (rp, f"list({rp})", f"tuple({rp})", f"iter({rp})", f"enumerate({rp})", f"range(len({rp}))", f"{rp}[:]")
-    ctx.check(in_order, "multi/part-order", ctx.construct(q, loop),
-              f"the parts are produced by iterating `{it}`, not the parsed ranges in request order: sorted()/reversed()/set() reorder the parts (and sorting pairs containing None "
-              "raises TypeError for suffix / open-ended ranges: a 500)")
-    pair = loop.target
-    if it.startswith("enumerate(") and isinstance(pair, ast.Tuple) and len(pair.elts) == 2 and isinstance(pair.elts[1], ast.Tuple):
-        pair = pair.elts[1]
-    if not isinstance(pair, ast.Tuple) or len(pair.elts) != 2:
-        ctx.note("multi-range loop target is not a (start, end) pair: per-part structural rules skipped, the evaluation rule judges")
-        return
-    apps = [(n, c) for n, c in call_sites(g, lambda c: call_attr(c) == "append" and isinstance(c.func, ast.Attribute) and isinstance(c.func.value, ast.Name))
-            if c.args and isinstance(c.args[0], ast.Tuple) and len(c.args[0].elts) == 3]
-    lst = {src(c.func.value) for n, c in apps}
-    ctx.check(len(lst) == 1 and len(apps) == 2, "multi/parts", q, "rangeInfo is not built from one per-part append and one final-boundary append of 3-tuples")
-    info = next(iter(lst)) if lst else "rangeInfo"
-    inloop = [(n, c) for n, c in apps if any(x is c for x in ast.walk(loop))]
-    final = [(n, c) for n, c in apps if not any(x is c for x in ast.walk(loop))]
-    conv = [st for st in ast.walk(loop) if isinstance(st, ast.Assign) and isinstance(st.value, ast.Call) and call_name(st.value) == "self._rangeToOffsetAndSize"]
-    ctx.need(len(conv) == 1 and isinstance(conv[0].targets[0], ast.Tuple), "partOffset, partSize = self._rangeToOffsetAndSize(start, end)")
-    off, size = [src(e) for e in conv[0].targets[0].elts]
-    ctx.check([src(a) for a in conv[0].value.args] == [src(e) for e in pair.elts], "multi/parts", q + " | conversion args", "start/end are not passed on in order")
-    augs = [(n, st) for n, st in assign_sites(g, lambda x: isinstance(x, ast.Name)) if isinstance(st, ast.AugAssign) and isinstance(st.op, ast.Add)]
-    for n, c in inloop:
-        sep, o, s = [src(e) for e in c.args[0].elts]
-        ctx.check((o, s) == (off, size), "multi/parts", ctx.construct(q, c), "a part is not recorded with the computed (offset, size)")
-        # skip of unsatisfiable parts (tests on the computed offset/size resolved per case)
-        bad = []
-        for a_ in (0, 1):
-            for b_ in (0, 1):
-                R = g.reach([g.entry], edge_ok=resolver(g, {off: a_, size: b_}))
-                if (n in R) != ((a_, b_) != (0, 0)):
-                    bad.append((a_, b_))
-        skipped = not bad
-        ctx.check(skipped, "multi/skip-unsatisfiable", ctx.construct(q, c), "an unsatisfiable part is not skipped (a part with bytes 0--1 would be sent)")
-        # Content-Length accounting coupled with the append
-        counters = {}
-        for m, st in augs:
-            if any(x is st for x in ast.walk(loop)):
-                counters.setdefault(src(st.target), []).append((m, src(st.value)))
-        ok = False
-        for name, adds in counters.items():
-            if sorted(v for m, v in adds) == sorted([s, f"len({sep})"]):
-                ok = all(g.must_precede([m], [n], exc=False) is None or from_here(g, [n], [m]) is None for m, v in adds)
-                cl_name = name
-        ctx.check(ok, "multi/content-length", ctx.construct(q, c), "Content-Length does not add exactly the part size and the separator length for every part that is sent")
-        # separator format
-        seps = [st for st in ast.walk(loop) if isinstance(st, ast.Assign) and src(st.targets[0]) == sep]
-        fmt_ok = False
-        if len(seps) == 1:
-            v = seps[0].value
-            if isinstance(v, ast.Call) and call_name(v) == "networkString":
-                v = v.args[0]
-            if isinstance(v, ast.BinOp) and isinstance(v.op, ast.Mod) and isinstance(v.right, ast.Tuple):
-                fmt = const_or_none(v.left)
-                args = [src(a) for a in v.right.elts]
-                crs = [st for st in ast.walk(loop) if isinstance(st, ast.Assign) and isinstance(st.value, ast.Call) and src(st.value) == f"self._contentRange({off}, {size})"]
-                fmt_ok = fmt == "\r\n--%s\r\nContent-type: %s\r\nContent-range: %s\r\n\r\n" and len(crs) == 1 and \
-                    args == ["nativeString(boundary)", "nativeString(contentType)", f"nativeString({src(crs[0].targets[0])})"]
-        ctx.check(fmt_ok, "multi/separator-format", ctx.construct(q, c) + " | separator",
-                  "the part separator is not CRLF--boundary CRLF Content-type CRLF Content-range(of this part) CRLF CRLF")
-    for n, c in final:
-        sep, o, s = [src(e) for e in c.args[0].elts]
-        fb = [st for st in walk_local(f) if isinstance(st, ast.Assign) and src(st.targets[0]) == sep]
-        ok = len(fb) == 1 and src(fb[0].value) == "b'\\r\\n--' + boundary + b'--\\r\\n'" and (o, s) == ("0", "0")
-        ctx.check(ok, "multi/separator-format", ctx.construct(q, c), "the closing delimiter is not CRLF--boundary--CRLF with an empty part")
-        cl = [c2 for m, c2 in named_calls(g, "request.setHeader") if const_or_none(c2.args[0]) == b"content-length" and not isinstance(c2.args[1], ast.Constant)]
-        ok = len(cl) == 1 and isinstance(cl[0].args[1], ast.BinOp) and const_or_none(cl[0].args[1].left) == b"%d"
-        if ok:
-            tot = cl[0].args[1].right
-            tot = tot.elts[0] if isinstance(tot, ast.Tuple) and len(tot.elts) == 1 else tot
-            ok = src(tot) in (f"contentLength + len({sep})", f"len({sep}) + contentLength")
-        ctx.check(ok, "multi/content-length", ctx.construct(q, c) + " | total", "the announced Content-Length is not the accumulated length plus the closing delimiter")
-        ct = [c2 for m, c2 in named_calls(g, "request.setHeader") if const_or_none(c2.args[0]) == b"content-type"]
-        ok = len(ct) == 1 and "multipart/byteranges; boundary=" in src(ct[0].args[1]) and "nativeString(boundary)" in src(ct[0].args[1])
-        ctx.check(ok, "multi/separator-format", q + " | Content-Type", "the multipart Content-Type does not announce the boundary used in the separators")
-    # status
-    uns = _status_sites(g, "REQUESTED_RANGE_NOT_SATISFIABLE")
-    par = _status_sites(g, "PARTIAL_CONTENT")
-    flags = [src(st.targets[0]) for st in ast.walk(loop) if isinstance(st, ast.Assign) and isinstance(st.value, ast.Constant) and st.value.value is True]
-    ctx.check(len(uns) == 1 and len(par) == 1 and len(flags) == 1, "multi/status", q, "416 / 206 / the matching flag are not each set at one site")
-    if flags:
-        fl = flags[0]
-        for n in uns:
-            ctx.check(truth_guard(g, n, fl, False), "multi/status", ctx.construct(q, g.node(n).ast), "416 is not answered exactly when no part is satisfiable")
-        for n in par:
-            ctx.check(truth_guard(g, n, fl, True), "multi/status", ctx.construct(q, g.node(n).ast), "206 is not answered exactly when some part is satisfiable")
-        sets = [m for m, st in assign_sites(g, lambda x: src(x) == fl) if isinstance(st.value, ast.Constant) and st.value.value is True]
-        for n, c in inloop:
-            ok = all(g.must_precede([m], [n], exc=False) is None or from_here(g, [n], [m]) is None for m in sets) and bool(sets)
-            ctx.check(ok, "multi/status", ctx.construct(q, c) + " | flag", "a part is recorded without marking the request satisfiable")
-    # shape of what the producer receives: a non-empty list of (boundary, offset, size) on every return
-    rets = g.ids(lambda x: x.kind == "stmt" and isinstance(x.ast, ast.Return))
-    for r in rets:
-        v = g.node(r).ast.value
-        if isinstance(v, ast.Name) and v.id == info:
-            w = g.must_precede([n for n, c in apps], [r], exc=False)
-            ok = w is None
-        else:
-            ok = isinstance(v, ast.List) and v.elts and all(isinstance(e, ast.Tuple) and len(e.elts) == 3 for e in v.elts)
-        ctx.check(ok, "multi/result-shape", ctx.construct(q, g.node(r).ast),
-                  "the value handed to MultipleRangeStaticProducer is not a non-empty list of (boundary, offset, size): its start() unpacks next(iter(rangeInfo)) into three and "
-                  "raises ValueError/StopIteration - `Range: bytes=100-200,300-400` on a 10-byte file is a 500, not a 416")
+def _known_lenient(ctx):
+    w = _world(ctx)
+    c = b"0123456789"
+    _run_grid(ctx, w, "range/lenient-integers", Q + "File | byte positions that are not 1*DIGIT", [(c, b"bytes=+1-2"), (c, b"bytes=1_0-"), (c, b"bytes=--5"), (c, b"bytes=1 -2"), (c, b"bytes=1- 2")],
+              "malformed headers whose numbers int() accepts")
 
 
-def _producers(ctx):
-    # single range
-    C = "SingleRangeStaticProducer"
-    f = ctx.func(S, C + ".start")
-    g = ctx.cfg(f)
-    q = Q + C + ".start"
-    sk = [n for n, c in named_calls(g, "self.fileObject.seek") if [src(a) for a in c.args] == ["self.offset"]]
-    reg = [n for n, c in named_calls(g, "self.request.registerProducer")]
-    zero = [n for n, st in assign_sites(g, lambda x: is_self_attr(x, "bytesWritten")) if src(st.value) == "0"]
-    ok = bool(sk) and bool(reg) and bool(zero) and g.must_precede(sk, reg) is None and g.must_precede(zero, reg) is None
-    ctx.check(ok, "producer/seek-first", q, "the file is not positioned at the range offset (and the counter reset) before production starts")
-    f = ctx.func(S, C + ".__init__")
-    ok = all(any(isinstance(s, ast.Assign) and any(is_self_attr(t, a) for t in s.targets) and src(s.value) == a for s in walk_local(f)) for a in ("offset", "size"))
-    ctx.check(ok, "producer/seek-first", Q + C + ".__init__", "offset / size are not stored as given")
-    f = ctx.func(S, C + ".resumeProducing")
-    g = ctx.cfg(f)
-    q = Q + C + ".resumeProducing"
-    _read_bound(ctx, g, q, "self.size - self.bytesWritten")
-    wr = named_calls(g, "self.request.write")
-    cnt = [n for n, st in assign_sites(g, lambda x: is_self_attr(x, "bytesWritten")) if isinstance(st, ast.AugAssign) and isinstance(st.op, ast.Add)]
-    for n, c in wr:
-        a = src(c.args[0])
-        ok = len(cnt) == 1 and src(g.node(cnt[0]).ast.value) == f"len({a})" and (g.must_precede(cnt, [n]) is None)
-        ctx.check(ok, "producer/count-coupled", ctx.construct(q, c), "bytes are written without being counted first (the re-entrant resumeProducing would over-read)")
-        rd = [st for st in walk_local(f) if isinstance(st, ast.Assign) and src(st.targets[0]) == a and isinstance(st.value, ast.Call) and call_name(st.value) == "self.fileObject.read"]
-        ctx.check(len(rd) == 1, "producer/count-coupled", ctx.construct(q, c) + " | payload", "what is written is not what was read from the file")
-    fin = named_calls(g, "self.request.finish")
-    for n, c in fin:
-        ok = any(cmp_polarity(g.node(t).ast, "self.bytesWritten", "self.size") is not None and cmp_polarity(g.node(t).ast, "self.bytesWritten", "self.size") == (lab == "T") for t, lab in g.edge_guards(n))
-        ctx.check(ok, "producer/finish-at-size", ctx.construct(q, c), "the response is finished under a condition other than bytesWritten == size")
-        un = [m for m, _ in named_calls(g, "self.request.unregisterProducer")]
-        ctx.check(bool(un) and g.must_precede(un, [n]) is None, "producer/finish-at-size", ctx.construct(q, c) + " | unregister first", "finish() before unregisterProducer()")
-    ctx.check(len(fin) == 1 and len(wr) == 1, "producer/finish-at-size", q, "write / finish sites not found")
-
-    # multiple ranges
-    C = "MultipleRangeStaticProducer"
-    f = ctx.func(S, C + "._nextRange")
-    q = Q + C + "._nextRange"
-    un = [s for s in walk_local(f) if isinstance(s, ast.Assign) and isinstance(s.targets[0], ast.Tuple) and src(s.value) == "next(self.rangeIter)"]
-    ok = len(un) == 1 and len(un[0].targets[0].elts) == 3
-    ctx.need(ok, "boundary, offset, size = next(self.rangeIter)")
-    b, o, s = [src(e) for e in un[0].targets[0].elts]
-    g = ctx.cfg(f)
-    sk = [n for n, c in named_calls(g, "self.fileObject.seek") if [src(a) for a in c.args] == [o]]
-    zero = [n for n, st in assign_sites(g, lambda x: is_self_attr(x, "_partBytesWritten")) if src(st.value) == "0"]
-    ctx.check(bool(sk) and bool(zero) and from_here(g, [g.entry], sk) is None and from_here(g, [g.entry], zero) is None, "producer/seek-first", q,
-              "moving to the next part does not seek to its offset and reset the per-part counter")
-    ctx.check((b, s) == ("self.partBoundary", "self._partSize"), "producer/seek-first", q + " | fields", "the (boundary, offset, size) triple is unpacked into the wrong fields")
-    f = ctx.func(S, C + ".resumeProducing")
-    g = ctx.cfg(f)
-    q = Q + C + ".resumeProducing"
-    _read_bound(ctx, g, q, "self._partSize - self._partBytesWritten")
-    rd = [st for st in walk_local(f) if isinstance(st, ast.Assign) and isinstance(st.value, ast.Call) and call_name(st.value) == "self.fileObject.read"]
-    ctx.need(len(rd) == 1, "p = self.fileObject.read(...)")
-    p = src(rd[0].targets[0])
-    cnt = [(n, st) for n, st in assign_sites(g, lambda x: is_self_attr(x, "_partBytesWritten")) if isinstance(st, ast.AugAssign)]
-    ok = len(cnt) == 1 and src(cnt[0][1].value) == f"len({p})" and g.must_pass(g.ids_of(rd[0]), [cnt[0][0]], exc=False) is None
-    ctx.check(ok, "producer/count-coupled", q, "bytes read for a part are not counted against the part size")
-    dapp = [(n, c) for n, c in call_sites(g, lambda c: call_attr(c) == "append" and c.args and src(c.args[0]) == p)]
-    ctx.check(len(dapp) == 1 and g.must_pass(g.ids_of(rd[0]), [dapp[0][0]], exc=False) is None, "producer/count-coupled", q + " | payload", "bytes read for a part are not all queued for writing")
-    bapp = [(n, c) for n, c in call_sites(g, lambda c: call_attr(c) == "append" and c.args and src(c.args[0]) == "self.partBoundary")]
-    ok = len(bapp) == 1 and dapp and src(bapp[0][1].func.value) == src(dapp[0][1].func.value) and truth_guard(g, bapp[0][0], "self.partBoundary", True) and \
-        g.must_precede([bapp[0][0]] + [t for t in g.ids(lambda x: x.kind == "test" and src(x.ast) == "self.partBoundary")], g.ids_of(rd[0])) is None
-    clr = [n for n, st in assign_sites(g, lambda x: is_self_attr(x, "partBoundary")) if src(st.value) == "None"]
-    ok = ok and bool(clr) and g.must_pass([bapp[0][0]], clr, exc=False) is None
-    ctx.check(ok, "producer/boundary-once", q, "a part's separator is not written exactly once, before the part's bytes")
-    nx = named_calls(g, "self._nextRange")
-    for n, c in nx:
-        ok = any(cmp_polarity(g.node(t).ast, "self._partBytesWritten", "self._partSize") is not None and
-                 cmp_polarity(g.node(t).ast, "self._partBytesWritten", "self._partSize") == (lab == "T") for t, lab in g.edge_guards(n))
-        ctx.check(ok, "producer/finish-at-size", ctx.construct(q, c), "the producer moves to the next part under a condition other than partBytesWritten == partSize")
-        hs = enclosing_try_handlers(f, c)
-        ctx.check(any("StopIteration" in handler_names(h) for h in hs), "producer/finish-at-size", ctx.construct(q, c) + " | end of parts", "the end of the part list is not handled")
-    ctx.check(len(nx) == 1, "producer/finish-at-size", q + " | next part", "_nextRange call site not found")
-    wr = named_calls(g, "self.request.write")
-    ok = len(wr) == 1 and dapp and src(wr[0][1].args[0]) == f"b''.join({src(dapp[0][1].func.value)})"
-    ctx.check(ok, "producer/count-coupled", q + " | write", "the queued pieces are not written joined in order")
-
-
-def _read_bound(ctx, g, q, remaining):
-    rds = named_calls(g, "self.fileObject.read")
-    ctx.check(len(rds) == 1, "producer/read-bounded", q, "the producer does not read the file at exactly one site")
-    for n, c in rds:
-        a = c.args[0] if c.args else None
-        ok = isinstance(a, ast.Call) and call_name(a) == "min" and remaining in [src(x) for x in a.args]
-        ctx.check(ok, "producer/read-bounded", ctx.construct(q, c), f"the read is not bounded by the bytes remaining in the part ({remaining}): bytes after the range would be sent")
+def _known_overrun(ctx):
+    c = bytes(range(256)) * 2
+    w = _world(ctx, buffer_size=64)
+    _run_grid(ctx, w, "range/part-boundary-overruns-buffer", Q + "MultipleRangeStaticProducer | a part separator pushes the chunk past bufferSize",
+              [(c, b"bytes=0-1,2-3,4-5,6-7"), (c, b"bytes=0-40,50-60")], "multi-range answers with bufferSize 64")
 
 
 MUTANTS = [
@@ -640,8 +381,6 @@ MUTANTS = [
     Mutant("parts-in-reverse-order", S, "        for start, end in byteRanges:\n            partOffset, partSize", "        for start, end in reversed(byteRanges):\n            partOffset, partSize"),
     Mutant("reversed-range-ge", S, "                if end is not None and start > end:", "                if end is not None and start >= end:"),
     Mutant("parser-raises-keyerror", S, "            raise ValueError(f\"Unsupported Bytes-Unit: {kind!r}\")", "            raise KeyError(f\"Unsupported Bytes-Unit: {kind!r}\")"),
-    Mutant("int-outside-try", S, "            if end:\n                try:\n                    end = int(end)\n                except ValueError:\n                    raise ValueError(f\"Invalid Byte-Range: {byteRange!r}\")\n",
-           "            if end:\n                end = int(end)\n                if end < 0:\n                    raise ValueError(f\"Invalid Byte-Range: {byteRange!r}\")\n"),
     Mutant("content-length-default-on-falsy", S, "        if size is None:\n            size = self.getFileSize()\n        request.setHeader(b\"content-length\"",
            "        if not size:\n            size = self.getFileSize()\n        request.setHeader(b\"content-length\""),
     Mutant("single-416-test-offset-only", S, "        if offset == size == 0:\n            # This range doesn't overlap", "        if offset == 0:\n            # This range doesn't overlap"),
@@ -654,6 +393,12 @@ MUTANTS = [
     Mutant("dispatch-single-for-first-of-many", S, "        if len(parsedRanges) == 1:\n            offset, size", "        if len(parsedRanges) >= 1:\n            offset, size"),
 ]
 SILENT = [
+    Silent("range-spec-parsing-in-helpers", S, "            if start:\n                try:\n                    start = int(start)\n                except ValueError:\n                    raise ValueError(f\"Invalid Byte-Range: {byteRange!r}\")\n            else:\n                start = None\n",
+           "            start = self._position(start, byteRange)\n",
+           more=[(S, "    def _rangeToOffsetAndSize(self, start, end):", "    @staticmethod\n    def _position(text, spec):\n        if not text:\n            return None\n        try:\n            return int(text)\n        except ValueError:\n            raise ValueError(f\"Invalid Byte-Range: {spec!r}\")\n\n    def _rangeToOffsetAndSize(self, start, end):")]),
+    Silent("no-range-producer-helper-and-flagless-multi", S, "        if not matchingRangeFound:\n            request.setResponseCode(http.REQUESTED_RANGE_NOT_SATISFIABLE)", "        if len(rangeInfo) == 0:\n            request.setResponseCode(http.REQUESTED_RANGE_NOT_SATISFIABLE)"),
+    Silent("int-conversion-outside-try-still-valueerror", S, "            if end:\n                try:\n                    end = int(end)\n                except ValueError:\n                    raise ValueError(f\"Invalid Byte-Range: {byteRange!r}\")\n",
+           "            if end:\n                end = int(end)\n"),
     Silent("parts-loop-enumerate", S, "        for start, end in byteRanges:\n            partOffset, partSize", "        for _idx, (start, end) in enumerate(byteRanges):\n            partOffset, partSize"),
     Silent("reversed-range-flattened-with-none-tests", S, "            if start is not None:\n                if end is not None and start > end:\n                    # Start must be less than or equal to end or it is invalid.\n                    raise ValueError(f\"Invalid Byte-Range: {byteRange!r}\")\n            elif end is None:",
            "            if start is not None and end is not None and start > end:\n                raise ValueError(f\"Invalid Byte-Range: {byteRange!r}\")\n            if start is None and end is None:"),
